@@ -17,13 +17,13 @@ pub mod stdx {
 
   pub mod sync {
     pub use crate::facade::{
-      Condvar, Mutex, MutexGuard, RwLock, RwLockReadGuard, RwLockWriteGuard,
+      Condvar, Mutex, MutexGuard, RwLock, RwLockReadGuard, RwLockWriteGuard, WaitTimeoutResult,
     };
     pub use std::sync::*;
   }
 
   pub mod thread {
-    pub use crate::facade::{sleep, spawn, yield_now, JoinHandle};
+    pub use crate::facade::{sleep, spawn, yield_now, Builder, JoinHandle};
     pub use std::thread::*;
   }
 
